@@ -1,5 +1,7 @@
 import RtcVerif.Model.C17LinOrder
 import RtcVerif.Model.C17SinglePass
+import RtcVerif.Model.C17Caching
+import RtcVerif.Model.C17Code
 /-! Line-protocol driver for the C17 models (linearised-order table, min-abs rows). -/
 open Lean RtcVerif RtcVerif.Wire RtcVerif.C17 RtcVerif.C03
 
@@ -15,6 +17,50 @@ def bndOfJson (j : Json) : Option (EVal × EVal) :=
 
 def pairsJ (l : List (Rat × Rat)) : Json :=
   Json.arr (l.map (fun ab => Json.arr #[ratJ ab.1, ratJ ab.2])).toArray
+
+/-- one construction event of a `CachingQPSol` session: the NLP and the calls made on its solver -/
+def cachingEvent (j : Json) : Option ((NLP × List CallIn) × List Rat) := do
+  let n ← getNat j "n"
+  let Q ← getRatMat j "Q"
+  let c ← getRatList j "c"
+  let k ← getRat j "k"
+  let ga ← getRatMat j "ga"
+  let gb ← getRatList j "gb"
+  let calls ← getArr j "calls"
+  let cs ← calls.mapM fun cj => do
+    let x0 ← getRatList cj "x0"
+    let lbx ← getEValList cj "lbx"
+    let ubx ← getEValList cj "ubx"
+    let lbg ← getEValList cj "lbg"
+    let ubg ← getEValList cj "ubg"
+    let cost ← getRat cj "cost"
+    pure (({ x0 := x0, lbx := lbx, ubx := ubx, lbg := lbg, ubg := ubg } : CallIn), cost)
+  let p : NLP := { n := n, f := { Q := Q, c := c, k := k }, g := (List.zip ga gb).map fun ab => { a := ab.1, b := ab.2 } }
+  pure ((p, cs.map (·.1)), cs.map (·.2))
+
+def optMatJ : Option Mat → Json
+  | some m => Json.mkObj [("ncol", Json.num (Int.ofNat m.ncol)), ("rows", matJ m.rows)]
+  | none => Json.null
+def optRatsJ : Option (List Rat) → Json
+  | some v => ratsJ v
+  | none => Json.null
+def optEValsJ : Option (List EVal) → Json
+  | some v => evalsJ v
+  | none => Json.null
+
+def solverInJ (d : SolverIn) : List (String × Json) :=
+  [("h", optMatJ d.h), ("g", optRatsJ d.g), ("a", optMatJ d.a), ("x0", optRatsJ d.x0), ("lbx", optEValsJ d.lbx),
+   ("ubx", optEValsJ d.ubx), ("lba", optEValsJ d.lba), ("uba", optEValsJ d.uba)]
+
+def traceJ (t : Trace) (costs : List Rat) : Json :=
+  match t.made with
+  | .error _ => Json.mkObj [("made", Json.str "raise")]
+  | .ok s =>
+    Json.mkObj [("made", Json.mkObj (solverInJ s.sin ++ [("b", ratsJ s.b), ("f0", ratJ s.f0)])),
+                ("calls", Json.arr ((List.zip t.calls costs).map fun rc =>
+                  match rc.1 with
+                  | .error _ => Json.str "raise"
+                  | .ok d => Json.mkObj (solverInJ d ++ [("f", ratJ (report s rc.2))])).toArray)]
 
 def handle (j : Json) : Option Json := do
   let op ← getStr j "op"
@@ -38,6 +84,30 @@ def handle (j : Json) : Option Json := do
       let r ← getRat j "r"
       let cr ← getRat j "cr"
       pure (Json.mkObj [("upper", ratJ (retainedUpper (qabs fstar / n) (convertedRelaxation r n) 1 cr))])
+  | "caching" =>
+      -- the life of one CachingQPSol object: constructions (cache carried along) and their calls
+      let evs ← (← getArr j "events").mapM cachingEvent
+      let traces := session none (evs.map (·.1))
+      pure (Json.mkObj [("traces", Json.arr ((List.zip traces (evs.map (·.2))).map fun tc => traceJ tc.1 tc.2).toArray)])
+  | "plan_opts" =>
+      -- as "plan", the bounds of the retained objective rows computed from the options active at each priority
+      let nbase ← getNat j "base"
+      let soft ← getNatList j "soft"
+      let vals ← getRatList j "vals"
+      let fixs ← getBoolList j "fix"
+      let crs ← getRatList j "cr"
+      let k ← getNat j "k"
+      let opts := fun (i : Nat) => (fixs.getD i false, crs.getD i 0)
+      let bnds := (List.range vals.length).map fun i => rowBnd singlePassOptRead opts (fun i => vals.getD i 0) i
+      let P : Plan := { base := List.replicate nbase dummyRow,
+                        soft := soft.map (fun n => List.replicate n dummyRow),
+                        objRow := bnds.map (fun _ => dummyRow), bnd := bnds }
+      let tail := fun (l : List Row) (n : Nat) => (l.drop (l.length - n)).map (fun r => Json.arr #[r.lo.toJson, r.hi.toJson])
+      pure (Json.mkObj [("keep", Json.num (Int.ofNat (keepRows P k).length)),
+                        ("append", Json.num (Int.ofNat (appendRows P k).length)),
+                        ("update", Json.num (Int.ofNat (updateRows P k).length)),
+                        ("append_tail", Json.arr (tail (appendRows P k) k).toArray),
+                        ("update_tail", Json.arr (tail (updateRows P k) bnds.length).toArray)])
   | "plan" =>
       -- row counts and objective-row bounds of the three loops at priority index k
       let nbase ← getNat j "base"
